@@ -343,9 +343,12 @@ var addedFiles = []addedFile{
 		}},
 		src: `package mem
 
-func GetTotalMem() (uint64, error) { return 16 << 30, nil }
+import "github.com/wrgl/wrgl/pkg/verifrt"
 
-func GetAvailMem() (uint64, error) { return 8 << 30, nil }
+// an environment answer owned by the harness (defaults 16 GiB / 8 GiB)
+func GetTotalMem() (uint64, error) { return verifrt.MemTotal, nil }
+
+func GetAvailMem() (uint64, error) { return verifrt.MemAvail, nil }
 `,
 		stub: "",
 	},
